@@ -60,7 +60,7 @@ def enc_cases(ck, count, maxchunks=5, exhaustive_lengths=False):
         return res
     i = 0
     while len(res) < count:
-        n = lens[i % len(lens)] if i < 2 * len(lens) or r.random() < 0.6 else r.randrange(0, maxchunks * CH + 40)
+        n = lens[(i * 7) % len(lens)] if r.random() < 0.45 else r.randrange(0, maxchunks * CH + 40)
         cm, hm = combos[(i * 7 + i // 15) % 15]
         T = Ts[(i // 3) % len(Ts)]
         i += 1
